@@ -3,7 +3,7 @@
 export GOFLAGS=-mod=mod GOPROXY=off GOSUMDB=off GOTOOLCHAIN=local
 OUT=${1:-/tmp/eqout}; rm -rf $OUT; mkdir -p $OUT
 cp /verif/bin/prunnerlint /tmp/prunnerlint-eq; export PRUNNERLINT=/tmp/prunnerlint-eq
-ls -d /verif/seeded-equivalent/${PAT:-*}/ | xargs -P 6 -I{} sh -c 'python3 /verif/tools/try_equiv.py {} > '$OUT'/$(basename {}).json 2>&1'
+ls -d /verif/seeded-equivalent/${PAT:-*}/ | xargs -P ${PAR:-6} -I{} sh -c 'python3 /verif/tools/try_equiv.py {} > '$OUT'/$(basename {}).json 2>&1'
 python3 - $OUT <<'PY'
 import json,glob,sys
 n=0
